@@ -161,7 +161,9 @@ func FuzzHandleMessage(f *testing.F) {
 	})
 }
 
-func containsSession(line, prefix string) bool { return len(line) >= len(prefix) && line[:len(prefix)] == prefix }
+func containsSession(line, prefix string) bool {
+	return len(line) >= len(prefix) && line[:len(prefix)] == prefix
+}
 
 func setDiff2(view, srv map[uint32]bool) string {
 	out := ""
